@@ -30,6 +30,8 @@ int main() {
     tbl("gen_islower", [](int c) { return islower(c); }, true);
     tbl("gen_tolower", [](int c) { return tolower(c); }, false);
     tbl("gen_toupper", [](int c) { return toupper(c); }, false);
+    // memcasecmp(): tolower(static_cast<unsigned char>(*b))
+    tbl("gen_tolower_uchar", [](int c) { return tolower(static_cast<unsigned char>(static_cast<char>(c))); }, false);
     // the value of a stored byte as a plain `char` promoted to int (signedness of char on this platform)
     tbl("gen_char_value", [](int c) { return c; }, false);
     return 0;
